@@ -470,6 +470,10 @@ def write_graph_text(rng, nodes, node_text, edges, descriptors, fmt, shuffle=Tru
     used_digits = set()
     appearance = []
     out = []
+    # ring-bond labels: the smallest free digit, or (valid just the same) two-digit %nn labels
+    # (only in SMILES text: the coarse-graph reader has its own limits with %nn labels - C04, not judged here)
+    first_label = 1 if (not shuffle or fmt != "smiles" or rng.random() < 0.8) else rng.choice([10, 12, 37, 98])
+    late_descs = shuffle and rng.random() < 0.3      # descriptors written after the branches of their atom
 
     def ring_tokens(x):
         toks = []
@@ -483,9 +487,13 @@ def write_graph_text(rng, nodes, node_text, edges, descriptors, fmt, shuffle=Tru
                 used_digits.discard(digit)
                 sym = ""
             else:
-                digit = 1
+                digit = first_label
                 while digit in used_digits:
                     digit += 1
+                if digit > 99:          # ring-bond labels have at most two digits
+                    digit = 1
+                    while digit in used_digits:
+                        digit += 1
                 used_digits.add(digit)
                 open_digits[cid] = digit
                 sym = ORDER_SYMBOL[edges[tuple(sorted(closures[cid]))]] if tuple(sorted(closures[cid])) in edges else ""
@@ -504,19 +512,29 @@ def write_graph_text(rng, nodes, node_text, edges, descriptors, fmt, shuffle=Tru
             descs = descs[k:]
         rings, has_symbol = ring_tokens(x)
         dtext = "".join(_desc_text(d) for d in descs)
-        if has_symbol or rng.random() < 0.5:
+        kids = [y for y in tree[x] if y != par]
+        if shuffle:
+            rng.shuffle(kids)
+        # "[>]CC(C)(C(=O)OC)[<]": a descriptor may also follow the branches of its atom
+        after_branches = bool(late_descs and dtext and len(kids) >= 2 and rng.random() < 0.7)
+        if after_branches:
+            body = node_text[x] + rings
+        elif has_symbol or rng.random() < 0.5:
             body = node_text[x] + dtext + rings
         else:
             body = node_text[x] + rings + dtext
         out.append(lead + body)
-        kids = [y for y in tree[x] if y != par]
-        if shuffle:
-            rng.shuffle(kids)
+        # (every child in parentheses only in SMILES text: the coarse-graph reader's bookkeeping of a branch that
+        # ends in '))' is C04's subject, not judged here)
+        all_in_branches = after_branches and fmt == "smiles" and rng.random() < 0.5
         for idx, y in enumerate(kids):
             sym = ORDER_SYMBOL[adj[x][y]]
             last = idx == len(kids) - 1
+            if last and after_branches and not all_in_branches:
+                out.append(dtext)
+            branch = (not last) or all_in_branches
             if fmt == "smiles":
-                if not last:
+                if branch:
                     out.append("(" + sym)
                     visit(y, x, False)
                     out.append(")")
@@ -525,12 +543,14 @@ def write_graph_text(rng, nodes, node_text, edges, descriptors, fmt, shuffle=Tru
                     visit(y, x, False)
             else:
                 out.append(sym)
-                if not last:
+                if branch:
                     out.append("(")
                     visit(y, x, False)
                     out.append(")")
                 else:
                     visit(y, x, False)
+        if after_branches and all_in_branches:
+            out.append(dtext)
 
     import sys
     sys.setrecursionlimit(max(sys.getrecursionlimit(), 5000))
@@ -723,6 +743,9 @@ CURATED = [
     ("{[#SP4]1[#SP4][#SP1r]1}.{#SP4=[OH;0.5]C[$]C[$]O,#SP1r=[$]OC[$]CO}", True, False),
     ("{[#A][#B][#C]}.{#A=O[>],#C=O[<],#B=[<]C[CH;x=R][>]C(=O)OC}", True, False),
     ("{[#A][#B]}.{#A=CC(/F)=[$],#B=[$]=C(/F)C}", True, False),
+    # the bare-H shorthand (rewritten to [H] with a warning), used by several fragments and several clients
+    ("{[#Hter][#PE]([#PEO][#Hter])[#PE]([#PEO][#Hter])[#Hter]}.{#Hter=[$]H,#PE=[$]CC[$][$],#PEO=[$]COC[$]}", True, False),
+    ("{[#Hter][#PS]|2[#Hter]}.{#PS=[$]CC[$]c1ccccc1,#Hter=[$]H}", True, False),
     # zero-order edges and a virtual node (kept last), with compatible descriptors left open across the '.' edge
     ("{[#A][#B].[#C]}.{#A=CC[$],#B=[$]C[$],#C=[$]CO}", True, False),
     ("{[#SP4]1.2[#SP4].3[#SP1r]1.[#TC4]23}.{#SP4=OC[$]C[$]O,#SP1r=[$]OC[$]CO}", True, False),
@@ -746,11 +769,11 @@ def build_repeat_item(rng):
     seq = []
     for b in range(n_blocks):
         name, _ = rng.choice(monos)
-        length = rng.randint(1, 4)
+        length = rng.choice([rng.randint(1, 4), rng.randint(1, 4), rng.randint(3, 7)])
         bname = "B%d" % (b + 1)
         block_defs.append((bname, "[<]" + "".join("[#%s]" % name for _ in range(length)) + "[>]"))
         seq.append(bname)
-    order = [rng.randrange(n_blocks) for _ in range(rng.randint(2, 5))]
+    order = [rng.randrange(n_blocks) for _ in range(rng.choice([rng.randint(2, 5), rng.randint(4, 7)]))]
     # now and then two consecutive blocks are joined by a zero-order edge: no bond may form across it
     base = "{" + "".join("[#%s]%s" % (seq[k], "." if (pos < len(order) - 1 and rng.random() < 0.15) else "")
                          for pos, k in enumerate(order)) + "}"
